@@ -19,6 +19,9 @@
   e2e.h264  cfg <DisableStapA> <IsAVC> <npre> <payload>* <n> (<bare> <nunits> (<four> <nal>)* frame)*  => obs
             (`pre` = payloads the receiver was fed before the history; the frame's payload must be
              the Annex-B rendering of its units, else the case is outside the hypotheses)
+  e2e.h265  cfg <AddDONL> <SkipAggregation> <n> (<nunits> (<startcode 0|3|4> <nal>)* frame)*  => obs
+            (the third list of an fobs holds the payload of every datagram H265Packet accepted — the
+             real Unmarshal returns nil — or the error)
   e2e.av1   cfg <npre> <payload>* <n> (<nobus> obu* frame)*   => obs
             (obu as in Driver/Kinds/Av1.lean; the frame's payload must be the serialisation of its OBUs)
 -/
@@ -149,6 +152,28 @@ def av1 : Handler :=
     (fun i o => histOkE i.pk i.frameIns (i.frames.map (·.1.expected)) o)
     (fun i => wfAV1 i.pk (i.frames.map (·.1)) && i.frames.all (fun (fr, b) => b == Spec.Av1Rtp.serialise fr.obus))
 
+structure H265In where
+  pk : Packetizer
+  cfg : H265.Cfg
+  frames : List (H265Frame × Bytes)
+
+def rdH265Frame : Rd (H265Frame × Bytes) := do
+  let us ← Rd.list (do let sc ← Rd.nat; let u ← Rd.bytes; pure (sc, u))
+  let f ← rdFrame
+  pure ({ units := us, samples := f.samples, now := f.now }, f.frame)
+
+def H265In.frameIns (i : H265In) : List FrameIn :=
+  i.frames.map (fun (fr, b) => { frame := b, samples := fr.samples, now := fr.now })
+
+def h265 : Handler :=
+  mkHandler (do let pk ← rdCfg; let a ← Rd.bool; let sk ← Rd.bool; let fs ← Rd.list rdH265Frame
+                pure ({ pk := pk, cfg := { addDONL := a, skipAgg := sk }, frames := fs } : H265In))
+    (Rd.list rdFrameObs)
+    (fun i => (runH265 i.cfg 0 i.pk i.frameIns).map coarse)
+    (fun i o => histOkH265 i.pk (i.frames.map (·.1)) o)
+    (fun i => wfH265 i.cfg i.pk (i.frames.map (·.1)) &&
+              i.frames.all (fun (fr, b) => b == Rtp.Pred.C14.frameBytes fr.units))
+
 def handlers : List (String × Handler) :=
-  [("e2e.g711", g711), ("e2e.opus", opus), ("e2e.vp8", vp8), ("e2e.vp9", vp9), ("e2e.h264", h264), ("e2e.av1", av1)]
+  [("e2e.g711", g711), ("e2e.opus", opus), ("e2e.vp8", vp8), ("e2e.vp9", vp9), ("e2e.h264", h264), ("e2e.av1", av1), ("e2e.h265", h265)]
 end Rtp.Kinds.E2E
